@@ -7,6 +7,7 @@
 //! Request lines (see /verif/lean/Drv/C39.lean):
 //!   `H <npeers> | <token>*`
 //!        `c<p>:<kind><id>[.<bundle>]`          peer p created message id (it applied it locally)
+//!        `n<p>:k<id>.<author>.<bundle>`        key bundle message forged outside p's manager (not yet in its registry)
 //!        `d<p>:<kind><id>[.<bundle>]:<hint>`   message delivered to peer p; hint = what the inner handler
 //!                                              did: `o<k>` ok with k events, `e` error, `p` panic
 //!        kind: k key bundle, a auth, m space membership, u space update, p application
@@ -146,6 +147,7 @@ struct World {
     fails: Vec<(String, String)>,
     redelivered_kinds: BTreeSet<char>,
     membership_changes: usize,
+    rotations: usize,
     app_msgs: usize,
     stats: BTreeMap<String, u64>,
 }
@@ -172,6 +174,7 @@ impl World {
             fails: vec![],
             redelivered_kinds: BTreeSet::new(),
             membership_changes: 0,
+            rotations: 0,
             app_msgs: 0,
             stats: BTreeMap::new(),
         }
@@ -201,6 +204,12 @@ impl World {
 
     /// Messages a peer created by a local operation (already applied to its own state).
     fn created(&mut self, author: usize, ops: Vec<TestOperation>) {
+        self.created_with(author, ops, true)
+    }
+
+    /// `self_known = false`: a key bundle message forged outside the author's manager (its own registry does not
+    /// hold the bundle yet).
+    fn created_with(&mut self, author: usize, ops: Vec<TestOperation>, self_known: bool) {
         for op in ops {
             let kind = kind_of(&op.header.extensions);
             let bundle = self.bundle_id(&op);
@@ -208,10 +217,10 @@ impl World {
             self.log.push(Msg { op, kind, author, bundle });
             // NB: creating a message is not "processing" it: the author's first `process` of its own message
             // counts as a first delivery (only its key registry already holds its own bundle).
-            if let Some(b) = bundle {
+            if let (Some(b), true) = (bundle, self_known) {
                 self.bundles_known[author].insert((author, b));
             }
-            self.tokens.push(format!("c{}:{}", author, self.tag(m)));
+            self.tokens.push(format!("{}{}:{}", if self_known { 'c' } else { 'n' }, author, self.tag(m)));
             self.count(&format!("created:{kind}"));
         }
     }
@@ -335,6 +344,43 @@ async fn history(rng: &mut Rng, n: usize, steps: usize) -> World {
     for p in 0..n {
         if let Ok(op) = w.peers[p].manager.key_bundle_message().await {
             w.created(p, vec![op]);
+        }
+    }
+    for p in 0..n {
+        w.catch_up(p, rng).await;
+    }
+    // pre-key rotations: 2-3 further REAL bundles per author — a second manager over the same store and credentials
+    // whose config makes every key_bundle() call rotate (rotate window >= lifetime), with a later expiry each
+    // time; every peer then knows several valid bundles of every author and the re-deliveries below hit bundles
+    // that are NOT the author's latest one
+    for round in 0..3u64 {
+        for p in 0..n {
+            if round == 2 && rng.chance(1, 2) {
+                continue;
+            }
+            let lifetime = std::time::Duration::from_secs(60 * 60 * 24 * 90 + 3600 * (round + 1));
+            let config = p2panda_spaces::Config { pre_key_lifetime: lifetime, pre_key_rotate_after: lifetime };
+            let store = w.peers[p].store.clone();
+            let credentials = w.peers[p].credentials.clone();
+            let rotator = p2panda_spaces::test_utils::TestManager::new_with_config(
+                p2panda_spaces::test_utils::TestSpacesStore::new(store.clone()),
+                p2panda_spaces::test_utils::TestForge::new(store, credentials.signing_key()),
+                credentials,
+                &config,
+                CryptoRng::from_seed([(40 + 10 * round as usize + p) as u8; 32]),
+            );
+            if let Ok(rotator) = rotator {
+                if let Some(Ok(op)) = guarded(rotator.key_bundle_message()).await {
+                    w.created(p, vec![op]);
+                    w.rotations += 1;
+                    w.count("op:key-bundle-rotation");
+                }
+            }
+        }
+        for q in 0..n {
+            if rng.chance(3, 4) {
+                w.catch_up(q, rng).await;
+            }
         }
     }
     for p in 0..n {
@@ -694,7 +740,7 @@ async fn adversarial(out: &mut Out, rng: &mut Rng, rounds: usize) {
 }
 
 /// (seed, peers, steps) of histories that reproduce the inner-layer panics recorded as known findings.
-const WITNESS_HISTORIES: &[(u64, usize, usize)] = &[(65, 2, 6), (117, 2, 9)];
+const WITNESS_HISTORIES: &[(u64, usize, usize)] = &[(86, 2, 4), (107, 2, 9)];
 
 fn main() {
     let args = Args::parse();
@@ -768,7 +814,7 @@ fn main() {
         }
     });
     out.finish(
-        "histories: 2-4 real Managers (test forge, SQLite) run random create-space / create-group / add / remove / publish / key-bundle / repair operations with lagging peers; every message is delivered to every peer (its author included), re-delivered immediately and at random later points, and once more at the end; adversarial: every SpacesArgs variant with remote-chosen field values against a prepared peer. non-trivial history = at least one membership change and one application message, each re-delivered",
+        "histories: 2-4 real Managers (test forge, SQLite) run random create-space / create-group / add / remove / publish / key-bundle / repair operations after 2-3 pre-key rotations per author (several valid bundles per author known to every peer) with lagging peers; every message is delivered to every peer (its author included), re-delivered immediately and at random later points, and once more at the end; adversarial: every SpacesArgs variant with remote-chosen field values against a prepared peer. non-trivial history = at least one membership change and one application message, each re-delivered",
         false,
     );
 }
